@@ -2364,7 +2364,13 @@ func c06R11(c *Ctx, r *Report) {
 			}
 			return true
 		})
-		return got["sharesStorageOnCopy"] && got["checkMutability"] && got["Add"] && testsAllowed
+		shares := got["sharesStorageOnCopy"]
+		if !shares {
+			if sf := c.LookupFn(pkgTC, "sharesStorageOnCopy"); sf != nil {
+				shares = reachesAdd(c, h.Obj, sf.Obj, 1)
+			}
+		}
+		return shares && got["checkMutability"] && got["Add"] && testsAllowed
 	}
 	found := false
 	var pos token.Pos = fn.Decl.Pos()
